@@ -138,6 +138,17 @@ func (em *emitter) comparisonWithZeroInteger(cond *ast.BinaryOperator) ast.Expre
 	return expr
 }
 
+// cutText returns the text of n without the bytes cut from its left and
+// right. The two cuts overlap if n, made only of spaces, follows a statement
+// and precedes another one and both are cut: in this case it returns nil.
+func cutText(n *ast.Text) []byte {
+	l, r := n.Cut.Left, len(n.Text)-n.Cut.Right
+	if l < 0 || r > len(n.Text) || l >= r {
+		return nil
+	}
+	return n.Text[l:r]
+}
+
 // compositeLiteralLen returns the length of a composite literal.
 func (em *emitter) compositeLiteralLen(node *ast.CompositeLiteral) int {
 	size := 0
